@@ -32,7 +32,7 @@ LEVEL_NOTE = ("Theorems are about the Gallina object-heap model Schema/StoreMode
               "fixes C14-01..03); the model is tied to /repo by running both on the same generated histories "
               "on every run. extend_schema is covered by the correspondence's direct checks only (its "
               "results enter the model as imported heaps).")
-RULE = ("histories of 1-6 operations (clone / transform_schema with visibility predicates over types, fields, "
+RULE = ("histories of 1-6 operations (clone / transform_schema with visibility predicates (deny-lists and allow-lists over all type names incl. specified scalars and introspection types) over types, fields, "
         "input fields, arguments, enum values, directives / camel-casing / apply_schema_directives with "
         "@rename and @remove / extend_schema with generated documents / _replace_types_and_directives with "
         "rebuilt and identical entries / inline swap of registry entries followed by fix_type_references), clone-based on the source or an earlier result or in place on an "
@@ -659,6 +659,12 @@ def _hidden_present(step, dump):
     return bad
 
 
+def _only_protected(step):
+    return (bool(step["types"]) and all(t in ser_store.BUILTIN or t.startswith("__") for t in step["types"])
+            and not (step["fields"] or step["input_fields"] or step["args"] or step["enum_values"]
+                     or step["directives"]))
+
+
 def _extension_losses(target_dump, res_dump, doc):
     """elements of the target that the extension document does not mention
     must be carried over unchanged"""
@@ -740,6 +746,9 @@ def direct_checks(case, obs):
                 hp = _hidden_present(step, res_dump)
                 if hp:
                     out.append(("removed-unreachable: %s left hidden elements in place: %s" % (tag, hp[:4]), None))
+            if step["op"] == "vis" and _only_protected(step) and res_dump != dumps.get(step["on"]):
+                out.append(("preserved: %s rejects only specified scalars / introspection types, which cannot "
+                            "be hidden, yet the result differs from its target" % tag, None))
             if step["op"] == "clone" and res_dump != dumps.get(step["on"]):
                 out.append(("preserved: the clone differs from its source (%s)" % tag, None))
             if step["op"] == "extend":
@@ -855,6 +864,11 @@ def corpus():
     out.append(_case(W32, [dict(_NOVIS, op="vis", on=0, types=["In2", "Bar"]),
                            dict(_NOVIS, op="vis", on=1, types=["E"], inplace=True),
                            {"op": "camel", "on": 1, "inplace": True}]))
+    # seeded C14-b: a predicate answering False for specified scalars / introspection types must not
+    # hide anything (_is_type_visible short-circuits; on_input_field judges the *referenced* type)
+    out.append(_case(W32, [dict(_NOVIS, op="vis", on=0, types=["Int", "String", "__Type"])]))
+    out.append(_case(W32, [dict(_NOVIS, op="vis", on=0, types=["Int", "ID", "Boolean", "Float", "__Schema", "Orphan"]),
+                           dict(_NOVIS, op="vis", on=1, types=["String", "E"], inplace=True)]))
     out.append(_case(W32, [dict(_NOVIS, op="vis", on=0, args=["a"], enum_values=["B"], directives=["meta"],
                                 input_fields=[["In", "x"]])]))
     out.append(_case(W32.replace("bar(a: Int = 3", 'bar(a: Int = 3 @rename(to: "renamed_a")')
